@@ -26,6 +26,7 @@ import (
 	"github.com/olive-io/bpmn/v2/pkg/id"
 	"github.com/olive-io/bpmn/v2/pkg/logic"
 	"github.com/olive-io/bpmn/v2/pkg/tracing"
+	"github.com/olive-io/bpmn/v2/pkg/verifhook"
 )
 
 type startMessage struct{}
@@ -110,6 +111,7 @@ func (evt *startEvent) run(ctx context.Context, sender tracing.ISenderHandle) {
 }
 
 func (evt *startEvent) flow(ctx context.Context) {
+	verifhook.Point("start.flow")
 	flowable := newFlow(evt.wiring.definitions, evt, evt.wiring.tracer,
 		evt.wiring.flowNodeMapping, evt.wiring.flowWaitGroup, evt.idGenerator, nil, evt.locator)
 	flowable.Start(ctx)
